@@ -4,6 +4,24 @@ NOTES = ("Every check rebuilds the harness from /repo's working tree (go build -
          "then runs the correspondence between the Lean model driver and the real code. See DESIGN.md.")
 NOT_APPLICABLE = {}
 CHECKS = {
+ "C06": {
+  "text": "Lean proves that each remaining iteration over a Go map is order-insensitive: inserting the entries of a map with distinct keys in any permutation yields the same lookups (insertAll_perm, iriContext_perm), and permuting the fields of any object anywhere in a report tree permutes - and does not change - the ids assigned (assignIds_perm); the inventory of range-over-map sites and go statements is regenerated with go/packages and pinned (sites_expected, no_go_statements); the old GetMapKeys order is shown to leak (old_order_leaks). Search: generated code and fixed-clock reports hashed in N fresh processes must coincide.",
+  "note": "Partial: determinism inside OPA, json-gold, yaml.v3 and encoding/json is observed only. Trusted: Lean kernel; the go/packages inventory extractor.",
+  "technique": "Lean 4 proof (permutation invariance lemmas) over a regenerated inventory of map iterations + fresh-process byte comparison as search",
+  "ref": "DESIGN.md 7/C06",
+ },
+ "C08": {
+  "text": "Regenerated every run from the sources and from the LINKED engine: the deny-list, the engine's built-in table, and every call into the engine's API. Lean proves forbidden is a subset of the deny-list, the deny-list names exist in the engine, there is one compile site and it passes the deny-list, and on a term model a denied call is found at any depth. The matrix compiles a profile for every built-in x 12 embedding positions x 4 call syntaxes: rejected-as-unsafe iff on the deny-list, forbidden ones rejected everywhere, nothing evaluated.",
+  "note": "Trusted: Lean kernel; OPA's capability check itself (modelled, tied by the exhaustive matrix in the thorough tier); extractor.",
+  "technique": "Lean 4 proofs over regenerated tables (decide) and a term-level induction + exhaustive compile matrix against the linked engine",
+  "ref": "DESIGN.md 7/C08",
+ },
+ "C10": {
+  "text": "Lean proves for every schedule of any number of threads that the atomic counter issues pairwise distinct numbers (so no two names in one module coincide), exhibits explicit colliding schedules for the pre-repair load/store counter, and shows sequential schedules could never see it; the inventory of package-level variables, of every write/address-taking of them and of go statements is regenerated with go/packages and pinned. Search: -race build, mixed concurrent entry points sharing one compiled profile, parallel results compared with serial ones.",
+  "note": "Partial: the interleaving model cannot exhibit torn reads or races inside OPA/json-gold/the Go runtime; those are only searched with the race detector.",
+  "technique": "Lean 4 proof by induction on the schedule + regenerated shared-state inventory + race-detector stress as search",
+  "ref": "DESIGN.md 7/C10",
+ },
  "C12": {
   "text": "Lean proves for every report tree satisfying a decidable shape predicate WF (keys distinct, no `_`, not numeric, at most one array of typed children per typed node) that the ids assigned by the model of defineIdRecursively are pairwise distinct, injectively joined with `_`, distinct across levels and from the three fixed ids (report_ids_unique, document_ids_nodup), and that WF is necessary (collision_without_wf). Every real report produced from nested/quantified profiles is converted to the model tree: WF is decided on it, its ids must equal the model's, and groundedness/completeness of every result and sub-result is checked.",
   "note": "Trusted: Lean kernel; the conversion of the report JSON to the tree type; the shape hypothesis is checked per real report (decidably), not proved for all reports the policy can produce.",
